@@ -368,7 +368,7 @@ def hex_blank_variants(rng, hexstr, many=False):
 
 # ---- long-running-process soak (check.py): cheap DISTINCT requests of the basic kinds, and corner requests to re-ask
 _FILE_KINDS = {
-    "btc_hd_wallet/bip32.py": ["ckd", "xk"], "btc_hd_wallet/keys.py": ["sec", "priv", "ckd"],
+    "btc_hd_wallet/bip32.py": ["ckd", "xk"], "btc_hd_wallet/keys.py": ["sec", "priv"],
     "btc_hd_wallet/helper.py": ["h160", "b58"], "btc_hd_wallet/bech32.py": ["b32"],
     "btc_hd_wallet/bip39.py": ["seed", "mn"], "btc_hd_wallet/bip85.py": ["ckd"], "btc_hd_wallet/script.py": ["h160"],
     "btc_hd_wallet/base_wallet.py": ["ckd", "xk", "h160", "b58"], "btc_hd_wallet/paper_wallet.py": ["ckd", "b58"],
